@@ -63,6 +63,8 @@ pub(crate) struct Operator<'o> {
     #[educe(Debug(ignore))]
     inner: IoUring,
     entering: AtomicBool,
+    // the submission queue is shared by the event-loop thread and every thread that makes a call
+    sq_lock: Mutex<()>,
     backlog: Mutex<VecDeque<&'o Entry>>,
 }
 
@@ -75,17 +77,21 @@ impl Operator<'_> {
             .map(|inner| Self {
                 inner,
                 entering: AtomicBool::new(false),
+                sq_lock: Mutex::new(()),
                 backlog: Mutex::new(VecDeque::new()),
             })
     }
 
     fn push_sq(&self, entry: Entry) -> std::io::Result<()> {
         let entry = Box::leak(Box::new(entry));
-        if unsafe { self.inner.submission_shared().push(entry).is_err() } {
-            self.backlog
-                .lock()
-                .expect("backlog lock failed")
-                .push_back(entry);
+        {
+            let _guard = self.sq_lock.lock().expect("sq lock failed");
+            if unsafe { self.inner.submission_shared().push(entry).is_err() } {
+                self.backlog
+                    .lock()
+                    .expect("backlog lock failed")
+                    .push_back(entry);
+            }
         }
         match self.inner.submit() {
             Ok(_) => Ok(()),
@@ -139,6 +145,7 @@ impl Operator<'_> {
         cq.sync();
 
         // clean backlog
+        let _guard = self.sq_lock.lock().expect("sq lock failed");
         let mut sq = unsafe { self.inner.submission_shared() };
         loop {
             if sq.is_full() {
